@@ -6,11 +6,18 @@
    single message with exactly the header presented (hence the same recipient
    entries, one of which the opener's key opened); clean end only after all of
    it — or the input itself carries, inside an examined packet, a signature that
-   verifies on a string the signer never signed, or a SHA-512 collision. *)
+   verifies on a string the signer never signed, or a SHA-512 collision.
+   LOCATED BREAKS: every witness of the break disjunct lies in a finite list computed by a
+   fixed function from (the primitives, this input and the receiver's keys) or from (the
+   primitives, the honest history): a forged tag/signature is one of the pairs the receiver
+   actually checked on this input; a SHA-512 collision is between one string the receiver
+   hashed while processing this input and one string the honest party hashed while producing
+   its history.  (An unrestricted "exists x <> y with equal hashes" is true of real SHA-512 by
+   pigeonhole and would make the disjunction empty of content.) *)
 From Coq Require Import List NArith ZArith.
 From Coq.Strings Require Import Byte.
 From SP Require Import Bytes Params Msgpack Crypto Errors Packets Chunker Rand Verify Encrypt Decrypt Signcrypt
-     SignAuthProofs ScAuthProofs.
+     SignAuthProofs ScAuthProofs ScAuthLocated.
 Import ListNotations.
 Open Scope N_scope.
 
@@ -28,8 +35,8 @@ Theorem C04_authentic (kr : keyring) (signers : sigring) (rv : resolver) (input 
       In m M /\ read_header_bytes input = Ok (hb, rest) /\ hb = sm_header m /\
       list_prefix (so_chunks out) (map fst (sm_packets m)) /\
       (so_end out = EOF -> so_chunks out = map fst (sm_packets m)))
-  \/ ScBreak c kr signers rv pk M others input.
-Proof. exact (signcrypt_authentic c Hsha kr signers rv input pk out M others). Qed.
+  \/ ScBreakL c kr signers rv pk M others input.
+Proof. exact (signcrypt_authentic_located c Hsha kr signers rv input pk out M others). Qed.
 
 Theorem C04_all_at_once (kr : keyring) (signers : sigring) (rv : resolver) (input : bytes)
         (pk pt : bytes) (M : list sc_msg) (others : list sign_event) :
@@ -37,8 +44,8 @@ Theorem C04_all_at_once (kr : keyring) (signers : sigring) (rv : resolver) (inpu
   N.of_nat (length input) < 18446744073709551616 ->
   signcrypt_open_all c kr signers rv input = Ok (Some pk, pt) ->
   (exists m, In m M /\ pt = concat (map fst (sm_packets m)))
-  \/ ScBreak c kr signers rv pk M others input.
-Proof. exact (signcrypt_authentic_all c Hsha kr signers rv input pk pt M others). Qed.
+  \/ ScBreakL c kr signers rv pk M others input.
+Proof. exact (signcrypt_authentic_all_located c Hsha kr signers rv input pk pt M others). Qed.
 End C04.
 
 Print Assumptions C04_authentic.
